@@ -254,7 +254,7 @@ def handle_failure(prop, feature, ob, res, known, lines):
         return {"class": "inconclusive", "why": "unwinding assertion failed: the loop bound of this harness is too small for the current source"}
     ob_pb = dict(ob)
     ob_pb["mem_gb"] = max(24, 2 * ob.get("mem_gb", 10))  # trace generation needs more memory
-    ob_pb["timeout"] = 3 * ob.get("timeout", 600)
+    ob_pb["timeout"] = max(900, int(1.5 * ob.get("timeout", 600)))
     r2, text2 = run_kani(feature, ob_pb, tag="playback",
                          extra=["-Z", "concrete-playback", "--concrete-playback=print"])
     cands = extract_playback_values(text2)
